@@ -75,6 +75,18 @@ func (x *G) color() string {
 		if x.chance("hsla", 3) {
 			return "hsla(" + h + "," + s + "," + l + "," + x.pick("alpha", []string{"1", "0.5", "0", "1.0"}) + ")"
 		}
+		if x.chance("hslmodern", 3) {
+			// space separated form, where saturation and lightness may be plain numbers
+			x.Feats["hsl()-space-separated"]++
+			if x.chance("hslnumbers", 2) {
+				s, l = strings.TrimSuffix(s, "%"), strings.TrimSuffix(l, "%")
+			}
+			a := ""
+			if x.chance("hslslash", 3) {
+				a = " / " + x.pick("alpha", []string{"1", "0.5", "50%"})
+			}
+			return "hsl(" + h + " " + s + " " + l + a + ")"
+		}
 		return "hsl(" + h + x.pick("hslsep", []string{",", ", "}) + s + "," + l + ")"
 	case 6:
 		return "var(--c)"
@@ -194,9 +206,14 @@ func (x *G) familyList() string {
 
 // Decl draws one declaration "name:value".
 func (x *G) Decl() string {
-	k := x.n("prop", 40)
+	k := x.n("prop", 41)
 	var name, val string
 	switch k {
+	case 41:
+		// values with blocks, which are written without being processed: nothing but whitespace may change
+		x.Feats["unprocessed-value"]++
+		pv := [][2]string{{"c", "(1/ *2)"}, {"grid-template-columns", "[full-start] minmax(1em,1fr) [main-start]"}, {"x", "[a]  b / *c"}, {"width", "calc((1px + 2px) / 3)"}, {"--y", "{a:b}"}, {"grid-area", "1 / 2 / 3"}, {"aspect-ratio", "16 / 9"}, {"font", "12px/ 1.5 a"}, {"c", "a/ *b"}, {"margin", "( 1px )"}}[x.n("unprocessedpv", 9)]
+		return pv[0] + x.ows() + ":" + x.ows() + pv[1]
 	case 0, 1:
 		name = x.pick("boxprop", []string{"margin", "padding", "border-width", "margin", "inset", "border-style", "border-color"})
 		n := 1 + x.n("nbox", 3)
@@ -506,7 +523,7 @@ func (x *G) rule(depth int) string {
 		return x.pick("kf", []string{"@keyframes", "@-webkit-keyframes", "@KEYFRAMES"}) + " " + x.pick("kfname", []string{"Foo", "fade-in", "x1"}) + "{" + x.pick("kfsel", []string{"from", "0%", "FROM", "0.0%"}) + "{" + x.DeclList(2) + "}" + x.pick("kfsel2", []string{"to", "100%", "50%, 100.0%"}) + "{" + x.DeclList(2) + "}}"
 	case k == 4:
 		x.Feats["@import"]++
-		return "@import " + x.pick("import", []string{"url(a.css)", "\"a.css\"", "url( \"a.css\" )", "'a.css' screen", "url(a.css) SCREEN and (orientation:landscape)"}) + ";"
+		return "@import " + x.pick("import", []string{"url(a.css)", "\"a.css\"", "url( \"a.css\" )", "'a.css' screen", "url(a.css) SCREEN and (orientation:landscape)", "url(a)", "url( a )", "url()", "url(ab)", "\"a\"", "url('a')"}) + ";"
 	case k == 5:
 		x.Feats["comment"]++
 		return x.pick("comment", []string{"/* c */", "/*! keep */", "/*!  keep   me  */", "/*# sourceMappingURL=a.map */", "/**/"})
